@@ -56,9 +56,9 @@ fn objkey<const KL: usize>(aes: bool) {
     kani::cover!(num >= 65536 && gen > 255, "large object number and generation reached");
     kani::cover!(true, "end reached");
 }
-// @ob id=objkey_rc4_40 unwind=24 tier=quick timeout=600 bound="compute_object_key: every 5-byte file key, every object number (u32) and generation (u16)"
+// @ob id=objkey_rc4_40 unwind=24 mem=20 tier=quick timeout=600 bound="compute_object_key: every 5-byte file key, every object number (u32) and generation (u16)"
 fn objkey_rc4_40<const KF: usize>() { objkey::<5>(false) }
-// @ob id=objkey_rc4_128 unwind=24 tier=quick timeout=600 bound="compute_object_key: every 16-byte file key, every object number and generation"
+// @ob id=objkey_rc4_128 unwind=24 mem=20 tier=quick timeout=600 bound="compute_object_key: every 16-byte file key, every object number and generation"
 fn objkey_rc4_128<const KF: usize>() { objkey::<16>(false) }
-// @ob id=objkey_aes_128 unwind=28 tier=quick timeout=600 bound="compute_r4_aes_object_key: every 16-byte file key, every object number and generation"
+// @ob id=objkey_aes_128 unwind=28 mem=20 tier=quick timeout=600 bound="compute_r4_aes_object_key: every 16-byte file key, every object number and generation"
 fn objkey_aes_128<const KF: usize>() { objkey::<16>(true) }
